@@ -74,8 +74,8 @@ theorem klog_nil_of_fresh {l : List Event} {k : Peer × Id}
   have : evKey e = some k := by simpa using hk
   exact h e he k this rfl
 
-theorem pinv_init (limit : Nat) : PInv (pi (GS.RespLife.init limit)) := by
-  have e : pi (GS.RespLife.init limit) = ⟨[], [], [], [], [], none, none⟩ := rfl
+theorem pinv_init (c : Cfg) : PInv (pi (GS.RespLife.init c)) := by
+  have e : pi (GS.RespLife.init c) = ⟨[], [], [], [], [], none, none⟩ := rfl
   rw [e]
   refine ⟨by simp, ?_, ?_, ?_, ?_, ?_, ?_, ?_, by simp, ?_⟩ <;> simp [klog]
 
